@@ -55,8 +55,9 @@ func main() {
 		splitN := fs.Int("splitn", 0, "")
 		splitI := fs.Int("spliti", 0, "")
 		splitD := fs.Int("splitdepth", 0, "")
-		var params multi
+		var params, redirs multi
 		fs.Var(&params, "param", "k=v")
+		fs.Var(&redirs, "redirect", "function=harnessFunction")
 		fs.Parse(os.Args[2:])
 		spec := symgo.RunSpec{RepoDir: repoDir(), HarnessDir: verifDir() + "/harness", Pkg: *pkg, Fn: *fn, Sched: *sched, Preempt: *preempt,
 			Unwind: *unwind, MaxPaths: *maxPaths, LogQueries: *logq, Solver: *solver, Progress: true, Select: *sel, SampleEnds: *samples,
@@ -65,6 +66,13 @@ func main() {
 			kv := strings.SplitN(p, "=", 2)
 			v, _ := strconv.ParseInt(kv[1], 10, 64)
 			spec.Params[kv[0]] = v
+		}
+		for _, r := range redirs {
+			kv := strings.SplitN(r, "=", 2)
+			if spec.Redirects == nil {
+				spec.Redirects = map[string]string{}
+			}
+			spec.Redirects[kv[0]] = kv[1]
 		}
 		res := symgo.Run(spec)
 		printResult(res)
